@@ -100,7 +100,35 @@ def concat(interp, a, b):
             return get(interp2, a, idx_term)
         return get(interp2, b, z3.simplify(idx_term - la))
 
-    return SList(z3.simplify(la + lb), elem, uid)
+    out = SList(z3.simplify(la + lb), elem, uid)
+    out.volatile = True      # the element function case-splits: not memoised at this level
+    return out
+
+
+def _grow(interp, xs, ys):
+    """In-place growth at the end (append / extend / +=): the list object keeps its identity, the
+    elements below the old length are unchanged (prefix functions of the list stay valid)."""
+    snap = SList(xs.length, xs.elem, xs.uid)
+    snap.cache = xs.cache
+    snap.volatile = xs.volatile
+    snap.key = xs.key
+    if isinstance(ys, SList) and ys is xs:
+        ys = snap
+    old_len = xs.length
+    ys_len = ys.length if isinstance(ys, SList) else z3.IntVal(len(ys))
+
+    def elem(interp2, idx_term):
+        if interp2.st.fork(wrap(idx_term < old_len)):
+            return models.slist_elem(interp2, snap, idx_term)
+        k = z3.simplify(idx_term - old_len)
+        if isinstance(ys, SList):
+            return models.slist_elem(interp2, ys, k)
+        return interp2.getitem(list(ys), wrap(k))
+
+    xs.length = z3.simplify(old_len + ys_len)
+    xs.elem = elem
+    xs.cache = {}
+    xs.volatile = True
 
 
 def binop(interp, opcls, a, b):
@@ -135,4 +163,16 @@ def method(interp, xs, name, args, kwargs):
         return xs
     if name == '__iter__':
         return models.SIter(xs, 0)
+    if name == 'append':
+        (x,) = args
+        _grow(interp, xs, [x])
+        return None
+    if name == 'extend':
+        (ys,) = args
+        if isinstance(ys, (SOpt, SChoice)):
+            ys = interp.resolve(ys)
+        if not isinstance(ys, (SList, list, tuple)):
+            ys = list(interp.iterate(ys))
+        _grow(interp, xs, ys)
+        return None
     raise Unsupported('method %s on symbolic-length sequence' % name)
